@@ -47,7 +47,10 @@ def cases(desc):
     for i in range(desc["n"]):
         if desc["block"] == "json":
             sp = gen.spec(rng, mindim=0, maxdim=3, dtype=rng.choice('fi'), nan=rng.choice([0, 0.3]))
-            attrs = {k: v for k, v in rng.sample([("units", "K"), ("n", 3), ("xv", 2.5), ("l", [1, 2, 3]), ("d", {"k": [1, "a"]}), ("none", None), ("b", True)], rng.randint(0, 4))}
+            pool = [("units", "K"), ("n", 3), ("xv", 2.5), ("l", [1, 2, 3]), ("d", {"k": [1, "a"]}), ("none", None), ("b", True),
+                    # metadata stored under names the attribute protocol does not reach (class members, underscore, a dimension name)
+                    ("shape", "round"), ("_hidden", 4), ("values", "v"), ("ndim", [7])] + ([(sp["dims"][0], "named like a dimension")] if sp["dims"] else [])
+            attrs = {k: v for k, v in rng.sample(pool, rng.randint(0, 5))}
             yield {"block": "json", "a": sp, "attrs": attrs, "bad_attr": rng.random() < 0.4}
         elif desc["block"] == "nc":
             yield gen_nc_case(rng)
